@@ -456,6 +456,10 @@ func runClientCase(ctx *Ctx, m *common.Model, c KCase, idx int) *common.Violatio
 		return runConcCloseCase(ctx, c, idx)
 	case "echo":
 		return runEchoCase(ctx, m, c, idx)
+	case "exactfit":
+		return runExactFitCase(ctx, c, idx)
+	case "seqwrap":
+		return runSeqWrapCase(ctx, c, idx)
 	case "spoof":
 		return runSpoofCase(ctx, c, idx)
 	case "concsend":
